@@ -274,14 +274,39 @@ func (p *Path) localDecide(c *smt.Term) bool {
 	if len(lc.trace) > 4096 {
 		panic(summaryAbort{"summary path too long"})
 	}
-	p.NSolver++
 	extra := append(append([]*smt.Term(nil), lc.pc...), c)
-	r1, _ := p.S.Check(b, extra, false, nil)
-	var r2 smt.Result = smt.Sat
-	if r1 != smt.Unsat {
+	var r1, r2 smt.Result
+	known1, known2 := false, false
+	// the outer model decides one side for free when it follows this local path
+	if p.modelOK {
+		follows := true
+		for _, t := range lc.pc {
+			if v, ok := p.eval(t); !ok || v != 1 {
+				follows = false
+				break
+			}
+		}
+		if follows {
+			if v, ok := p.eval(c); ok {
+				if v == 1 {
+					r1, known1 = smt.Sat, true
+				} else {
+					r2, known2 = smt.Sat, true
+				}
+			}
+		}
+	}
+	if !known1 {
 		p.NSolver++
-		extra[len(extra)-1] = b.Not(c)
-		r2, _ = p.S.Check(b, extra, false, nil)
+		r1, _ = p.checkSliced(false, extra...)
+	}
+	if !known2 {
+		r2 = smt.Sat
+		if r1 != smt.Unsat {
+			p.NSolver++
+			extra[len(extra)-1] = b.Not(c)
+			r2, _ = p.checkSliced(false, extra...)
+		}
 	}
 	if r1 == smt.Unknown || r2 == smt.Unknown {
 		p.NUnknown++
